@@ -7,6 +7,9 @@
 // goroutines calling RestartRoutine / ResetRoutine / RestartAllRoutines / ResetAllRoutines / SetContext(same ctx, true) /
 // SetKey(k, true) at random.  Oracle: per key, never two instances inside the routine function at once (c07: "while a key
 // remains in the set, its routine is never executing in two instances at once").
+// Phase 3 (C07, exit status 5): keys are set, removed, restarted and reset (with condition callbacks) at random; then every
+// key is removed.  Oracle: "when a key is removed the running instance's context is cancelled and nothing for that key
+// is started again": 3 s later no instance is inside its routine.
 // Phase 2 (C06, exit status 6): a KeyedRefCount; goroutines take a reference on a random key, check that GetKey reports
 // the key while they hold the reference, release it (sometimes twice).  Oracle: a reference-counted key is present while
 // at least one unreleased reference exists; when every reference is released the key set is empty.
@@ -100,7 +103,7 @@ func TestKeyedFree(t *testing.T) {
 			k.SetKey(key, true)
 		}
 		var wg sync.WaitGroup
-		stop := time.Now().Add(dur / 2)
+		stop := time.Now().Add(dur / 3)
 		var ops atomic.Int64
 		for g := 0; g < 6; g++ {
 			wg.Add(1)
@@ -140,6 +143,76 @@ func TestKeyedFree(t *testing.T) {
 		if m := bad.Load(); m != nil {
 			freeReport(5, m.(string), stats)
 		}
+	}
+
+	// ---- phase 3: nothing runs for a removed key (C07)
+	if want == 0 || want == 5 {
+		var inside atomic.Int32
+		var entries atomic.Int64
+		ctor := func(key int) (keyed.Routine, int) {
+			return func(ctx context.Context) error {
+				inside.Add(1)
+				defer inside.Add(-1)
+				if entries.Add(1)%3 == 0 {
+					runtime.Gosched()
+					return errors.New("fails") // retried after 1 ms while the key stays
+				}
+				<-ctx.Done()
+				return context.Canceled
+			}, key
+		}
+		k := keyed.NewKeyed[int, int](ctor, keyed.WithRetry[int, int](&ubackoff.Backoff{BackoffKind: ubackoff.BackoffKind_BackoffKind_CONSTANT,
+			Constant: &ubackoff.Constant{Interval: 1}}))
+		ctx, cancel := context.WithCancel(context.Background())
+		k.SetContext(ctx, true)
+		yes := func(int, int) bool { runtime.Gosched(); return true }
+		var wg sync.WaitGroup
+		stop := time.Now().Add(dur / 3)
+		var ops atomic.Int64
+		for g := 0; g < 6; g++ {
+			wg.Add(1)
+			go func(g int) {
+				defer wg.Done()
+				r := rand.New(rand.NewPCG(*hist.Seed, 200+uint64(g)))
+				for time.Now().Before(stop) {
+					key := r.IntN(freeKeys)
+					switch r.IntN(8) {
+					case 0, 1:
+						k.SetKey(key, true)
+					case 2, 3:
+						k.RemoveKey(key)
+					case 4:
+						k.RestartRoutine(key, yes)
+					case 5:
+						k.ResetRoutine(key, yes)
+					case 6:
+						k.RestartAllRoutines(yes)
+					default:
+						k.SyncKeys([]int{key}, r.IntN(2) == 0)
+					}
+					ops.Add(1)
+					for i := r.IntN(3); i > 0; i-- {
+						runtime.Gosched()
+					}
+				}
+			}(g)
+		}
+		wg.Wait()
+		for key := 0; key < freeKeys; key++ {
+			k.RemoveKey(key)
+		}
+		stats["free.c07.remove_phase_calls"] = int(ops.Load())
+		stats["free.c07.remove_phase_entries"] = int(entries.Load())
+		deadline := time.Now().Add(3 * time.Second)
+		for inside.Load() != 0 {
+			if time.Now().After(deadline) {
+				cancel()
+				freeReport(5, fmt.Sprintf("every key has been removed (no release delay), yet %d instance(s) are still inside their routine 3 s later: started for a removed key, or never cancelled", inside.Load()), stats)
+			}
+			time.Sleep(time.Millisecond)
+		}
+		cancel()
+		k.ClearContext()
 	}
 
 	// ---- phase 2: a referenced key is present (C06)
